@@ -208,6 +208,10 @@ async def _run_hub(texts):
     await port.enable()
     await ports[1].enable()
     await ports[1].set_attr('expression', 'ADD($self, 1)')     # so that `$other` in an expression of `self` closes a loop
+    # the accepted expressions are not to be EVALUATED here (a generated BOY(1e9) or DELAY chain would keep the hub busy for
+    # minutes): this stream is about what is accepted, held and reported
+    for p_ in ports:
+        p_.push_eval = lambda *a_, **k_: None
     handler = types.SimpleNamespace(access_level=core_api.ACCESS_LEVEL_ADMIN, username='c03',
                                     request=types.SimpleNamespace(headers={}, method='PATCH', path='/ports/self', body=b'',
                                                                   query_arguments={}))
